@@ -96,6 +96,12 @@ def build(L, cache=None):
 STRUCT_KEY = "\0struct:"
 
 
+def structs_only(s):
+    """the structure-name bindings of a model axis dict (what steers leaf discovery: a structured PyTree in the
+    leaf type whose name is already bound only matches nodes of that structure, also while flattening)"""
+    return {k: x for k, x in s.items() if k.startswith(STRUCT_KEY)}
+
+
 def split_structs(s):
     """-> (axis bindings, {structure name: structure}) of a model axis dict"""
     return {k: x for k, x in s.items() if not k.startswith(STRUCT_KEY)}, {k[len(STRUCT_KEY):]: x for k, x in s.items() if k.startswith(STRUCT_KEY)}
@@ -175,8 +181,12 @@ def matches(x, L, s, v, flatten, label=None, nested_struct=False):
         if x is None:
             return True, s, v
         inner = L[1]
-        isl = lambda y: matches(y, inner, {}, {}, True)[0]
+        isl = lambda y: matches(y, inner, structs_only(s), {}, True)[0]
         s1, v1 = s, v
+        if flatten:
+            key = STRUCT_KEY + L[2]
+            if key in s1 and s1[key] != TM.struct(x, isl if inner[0] != "any" else None):
+                return False, s, v
         if not flatten:
             # the structure name is bound like an axis name: first use binds, later uses must agree; kept in the
             # axis dict under a key no axis can have, so that a failing leaf / alternative rolls it back with the rest
@@ -199,7 +209,7 @@ def matches(x, L, s, v, flatten, label=None, nested_struct=False):
         if x is None:
             return True, s, v
         inner = L[1]
-        isl = lambda y: matches(y, inner, {}, {}, True)[0]
+        isl = lambda y: matches(y, inner, structs_only(s), {}, True)[0]
         s1, v1 = s, v
         for leaf in TM.leaves(x, isl if inner[0] != "any" else None):
             ok, s1, v1 = matches(leaf, inner, s1, v1, flatten, label)
